@@ -325,7 +325,15 @@ class Caller(object):
             if t.draw(5) == 0:
                 # duplicate entries in a table
                 for xy in list(tables)[:1]:
-                    tables[xy] = list(tables[xy]) + list(tables[xy])[:1]
+                    dup = list(tables[xy])[:1]
+                    if dup and t.draw(2):
+                        # an equal entry that is a different object and came
+                        # in by another link
+                        e = dup[0]
+                        dup = [self.rt.RoutingTableEntry(
+                            set(e.route), e.key, e.mask,
+                            {self.rt.Routes(t.draw(6))})]
+                    tables[xy] = list(tables[xy]) + dup
             label = "minimise_tables[%s,target=%r]" % (
                 "+".join(m.__module__.split(".")[-1] for m in methods),
                 target)
@@ -455,6 +463,12 @@ class Caller(object):
             table.append(rt.RoutingTableEntry(routes[t.draw(3)], k,
                                               (1 << bits) - 1 | 0xffffff00,
                                               src))
+        if table and t.draw(4) == 0:
+            # a repeated entry (same key, mask and route) reached by another
+            # link, somewhere in the table
+            e = table[t.draw(len(table))]
+            table.insert(t.draw(len(table) + 1), rt.RoutingTableEntry(
+                set(e.route), e.key, e.mask, {rt.Routes(t.draw(6))}))
         target = [None, 1, n - 1, n][t.draw(4)]
         which = t.draw(4)
         if which == 0:
